@@ -8,6 +8,11 @@ Case (plain literal, replayable):
      steps = [(ops, out)]; ops = [("extend", [pool index..]) | ("remove", [id..])]
      out = ("yield", t | None) | ("ret", v) | "raise" | "kbint"
      a leaf whose steps are used up returns True.
+     further outs: "sysexit" (raise SystemExit; in the MODEL it is the same kind as kbint = "BaseException that is
+     not an Exception": identical trace, only do() re-raises it — the adapter reports which).
+     IMPLEMENTATION-SIDE ONLY (the model driver answers `(unmodelled)`, see unmodelled()): act "kbint" / "sysexit"
+     (BaseException raised by enter) and pseudo steps (ops, "oncease") / (ops, "onexit") = scheduler ops the doer
+     issues from its cease / exit action (re-entrant forced shutdown).
   Ops act on the doer's OWN scheduler (the Doist for top level / Doist pool, the enclosing DoDoer otherwise);
   extend indices refer to that scheduler's pool.  The Doist has id 0.
 
@@ -101,7 +106,7 @@ def sx_spec(s):
         a = act if isinstance(act, str) else ("done", act[1])
         st = []
         for ops, out in steps:
-            o = out if isinstance(out, str) else (
+            o = ("kbint" if out == "sysexit" else out) if isinstance(out, str) else (
                 ("yield", None if out[1] is None else sx.F(out[1])) if out[0] == "yield" else ("ret", out[1]))
             st.append(([(op[0],) + tuple(op[1]) for op in ops], o))
         return ("leaf", i, shape, a, st)
@@ -109,7 +114,35 @@ def sx_spec(s):
     return ("group", i, sx.F(tock), bool(always), [sx_spec(k) for k in kids], [sx_spec(k) for k in pool])
 
 
+CLOSE_OUTS = ("oncease", "onexit")
+
+
+def unmodelled(case):
+    """cases the Lean model does not cover: ops issued from close actions, BaseException raised by an enter"""
+    for s, _, _ in all_specs(case):
+        if s[0] == "leaf":
+            if s[3] in ("kbint", "sysexit") or any(o in CLOSE_OUTS for _, o in s[4]):
+                return True
+    return False
+
+
+def raises_bexc(spec):
+    """a leaf below (or at) spec can raise KeyboardInterrupt / SystemExit"""
+    if spec[0] == "leaf":
+        return spec[3] in ("kbint", "sysexit") or any(o in ("kbint", "sysexit") for _, o in spec[4])
+    return any(raises_bexc(k) for k in spec[4]) or any(raises_bexc(k) for k in spec[5])
+
+
+def enter_bexc(spec):
+    """entering this spec can raise KeyboardInterrupt / SystemExit"""
+    if spec[0] == "leaf":
+        return spec[3] in ("kbint", "sysexit")
+    return any(enter_bexc(k) for k in spec[4])
+
+
 def request(case, fuel=FUEL):
+    if unmodelled(case):
+        return ("unmodelled",)
     _, tock, start, limit, pool, specs = case
     return ("run", ("tock", sx.F(tock)), ("start", sx.F(start)),
             ("limit", None if limit is None else sx.F(abs(float(limit)))), ("fuel", fuel),
@@ -118,6 +151,8 @@ def request(case, fuel=FUEL):
 
 def obs_view(obs):
     """the reply the model driver must produce for this observation"""
+    if obs.get("unmodelled"):
+        return ("unmodelled",)
     tr = []
     for e in obs["trace"]:
         if e[1] == "doers":
@@ -125,7 +160,7 @@ def obs_view(obs):
         else:
             tr.append((e[0], e[1], sx.F(e[2])))
     return (("trace", tr), ("late", len(obs["late"])), ("flags", [(i, b) for i, b in obs["flags"]]),
-            ("done", obs["done"]), ("tyme", sx.F(obs["tyme"])), ("raised", None if obs["raised"] == "-" else obs["raised"]),
+            ("done", obs["done"] if isinstance(obs.get("done_raw", obs["done"]), bool) else "notbool"), ("tyme", sx.F(obs["tyme"])), ("raised", None if obs["raised"] in ("-", "sysexit") else obs["raised"]),
             ("doers", list(obs["doers"])))
 
 
@@ -155,8 +190,22 @@ class Leaf:
         self.rec = rec
         self.id = spec[1]
         self.act = spec[3]
-        self.steps = spec[4]
+        self.steps = [st for st in spec[4] if st[1] not in CLOSE_OUTS]
+        self.cops = {"cease": [op for ops, o in spec[4] if o == "oncease" for op in ops],
+                     "exit": [op for ops, o in spec[4] if o == "onexit" for op in ops]}
         self.sid = sid
+
+    def enter_fault(self):
+        if self.act == "fail":
+            raise SchedErr(f"enter {self.id}")
+        if self.act == "kbint":
+            raise KeyboardInterrupt()
+        if self.act == "sysexit":
+            raise SystemExit(3)
+
+    def close_ops(self, which, tyme):
+        if self.cops[which] and not self.rec.dead:
+            self.run_ops(self.cops[which], tyme)
 
     def run_ops(self, ops, tyme):
         s = self.rec.sched[self.sid]
@@ -180,6 +229,8 @@ class Leaf:
             raise SchedErr(f"doer {self.id}")
         if out == "kbint":
             raise KeyboardInterrupt()
+        if out == "sysexit":
+            raise SystemExit(3)
         return out
 
 
@@ -190,8 +241,7 @@ def _genfn(L):
         done = None
         try:
             rec.ev(i, "enter", tymth())
-            if L.act == "fail":
-                raise SchedErr(f"enter {i}")
+            L.enter_fault()
             if isinstance(L.act, tuple):
                 done = L.act[1]
             else:
@@ -206,6 +256,7 @@ def _genfn(L):
                     sent = yield out[1]
         except GeneratorExit:
             rec.ev(i, "cease", tymth())
+            L.close_ops("cease", tymth)
         except Exception:
             rec.ev(i, "abort", tymth())
             raise
@@ -213,6 +264,7 @@ def _genfn(L):
             rec.ev(i, "clean", tymth())
         finally:
             rec.ev(i, "exit", tymth())
+            L.close_ops("exit", tymth)
         return done
     return fn
 
@@ -226,8 +278,7 @@ def build_leaf(rec, spec, sid):
             def enter(self, *, temp=None):
                 self.pos = 0
                 rec.ev(L.id, "enter", self.tyme)
-                if L.act == "fail":
-                    raise SchedErr(f"enter {L.id}")
+                L.enter_fault()
                 if shape == "plain" and isinstance(L.act, tuple):
                     self.done = L.act[1]
 
@@ -236,12 +287,14 @@ def build_leaf(rec, spec, sid):
 
             def cease(self):
                 rec.ev(L.id, "cease", self.tyme)
+                L.close_ops("cease", self.tymth)
 
             def abort(self, ex):
                 rec.ev(L.id, "abort", self.tyme)
 
             def exit(self):
                 rec.ev(L.id, "exit", self.tyme)
+                L.close_ops("exit", self.tymth)
 
         if shape == "plain":
             class D(Life):
@@ -388,6 +441,9 @@ def run_program(case, mode="do"):
         except KeyboardInterrupt:
             n = len(rec.log)
             raised = "kbint"
+        except SystemExit:
+            n = len(rec.log)
+            raised = "sysexit"
         except Exception as ex:
             n = len(rec.log)
             raised = "other:" + type(ex).__name__
@@ -401,7 +457,7 @@ def run_program(case, mode="do"):
             gc.enable()
     ids = sorted(rec.obj)
     leaf0 = Leaf(rec, ("leaf", -1, "doify", "ok", []), 0)
-    return dict(trace=rec.log[:n], late=rec.log[n:],
+    return dict(unmodelled=unmodelled(case), trace=rec.log[:n], late=rec.log[n:],
                 flags=[(i, bool(rec.obj[i].done)) for i in ids],
                 done=bool(doist.done), tyme=doist.tyme, raised=raised,
                 doers=leaf0.ids_of(doist.doers))
@@ -420,8 +476,10 @@ class _Gen:
         self.next_id = 1
         self.tock = rng.choice(TOCKS)
         # "selfrm": pool doers may remove themselves while running and be extended again (known finding C01-K2)
-        self.p_ops = {"mixed": 0.15, "ops": 0.45, "faults": 0.08, "time": 0.0, "plain": 0.0, "selfrm": 0.5}[profile]
-        self.p_fault = {"mixed": 0.08, "ops": 0.05, "faults": 0.22, "time": 0.0, "plain": 0.0, "selfrm": 0.03}[profile]
+        self.p_ops = {"mixed": 0.15, "ops": 0.45, "faults": 0.08, "time": 0.0, "plain": 0.0, "selfrm": 0.5,
+                      "bexc": 0.12, "closeops": 0.3, "benter": 0.12}[profile]
+        self.p_fault = {"mixed": 0.08, "ops": 0.05, "faults": 0.22, "time": 0.0, "plain": 0.0, "selfrm": 0.03,
+                        "bexc": 0.2, "closeops": 0.06, "benter": 0.1}[profile]
         self.always = False
         # "lagging" programs: many yields shorter than the tock, then longer non-multiples (cumulative due tymes matter)
         self.lag = profile in ("time", "plain", "mixed") and rng.random() < 0.4
@@ -450,8 +508,8 @@ class _Gen:
         selfrm = False
         act = "ok"
         k = r.random()
-        if k < self.p_fault / 2:
-            act = "fail"
+        if k < self.p_fault / 2 and self.profile != "closeops":   # (an enter failing inside a close action escapes the close loop)
+            act = "fail" if self.profile != "benter" else r.choice(["kbint", "sysexit", "fail"])
         elif k < self.p_fault / 2 + 0.06:
             act = ("done", self.retv())
         steps = []
@@ -483,7 +541,7 @@ class _Gen:
                                 ops.append(("remove", ids))
             k = r.random()
             if k < self.p_fault:
-                out = "raise" if r.random() < 0.8 else "kbint"
+                out = ("raise" if r.random() < 0.8 else "kbint") if self.profile != "bexc" else r.choice(["raise", "kbint", "sysexit", "sysexit"])
             elif j == n - 1 and k < 0.6:
                 out = ("ret", self.retv())
             else:
@@ -491,6 +549,18 @@ class _Gen:
             steps.append((ops, out))
             if out in ("raise", "kbint") or out[0] == "ret":
                 break
+        if self.profile == "closeops" and allow_ops and not in_pool and act == "ok" and r.random() < 0.5:
+            # scheduler ops issued from the doer's cease / exit action (only doers that cannot be entered again)
+            oth = [x for x in sibs() if x != i]
+            for _ in range(r.choice([1, 1, 2])):
+                kind = r.choice(["extend", "self", "sib", "sib"])
+                if kind == "extend" and npool:
+                    op = ("extend", [r.randrange(npool) for _ in range(r.choice([1, 2]))])
+                elif kind == "self" or not oth:
+                    op = ("remove", [i])
+                else:
+                    op = ("remove", [r.choice(oth) for _ in range(r.choice([1, 2]))])
+                steps.append(([op], r.choice(CLOSE_OUTS)))
         spec = ("leaf", i, "doify", act, steps)
         shapes = [s for s in SHAPES if shape_ok(("leaf", i, s, act, steps)) and not (selfrm and s == "plain")]
         return ("leaf", i, r.choice(shapes), act, steps)
@@ -508,7 +578,9 @@ class _Gen:
         r = self.rng
         kinds = ["g" if (depth < 3 and r.random() < 0.25) else "l" for _ in range(nk + npool)]
         ids = [self.nid() for _ in kinds]      # members (kids then pool) get their ids first: removes can name any of them
-        sibs = lambda: list(ids)
+        # (closeops: removes never name pool doers, so an extend issued from a close action cannot meet a doer that is
+        #  being removed in the same remove() call)
+        sibs = (lambda: list(ids[:nk])) if self.profile == "closeops" else (lambda: list(ids))
         out = []
         for n, kd in enumerate(kinds):
             in_pool = n >= nk
@@ -524,12 +596,14 @@ def gen_case(rng, profile="mixed"):
     g = _Gen(rng, profile)
     nk = rng.choice([1, 2, 3, 3, 4, 5])
     npool = rng.choice([0, 1, 2, 3]) if g.p_ops else 0
+    if profile == "closeops":
+        nk, npool = max(nk, 3), max(npool, 1)
     specs, pool = g.members(0, nk, npool)
     t = g.tock
     limits = [0.0, t / 2, t, 2.5 * t, 3 * t, 0.3, 1.0, -2 * t, 7 * t, 12 * t]
     both = any(has_op(x, "extend") for x in specs + pool) and any(has_op(x, "remove") for x in specs + pool)
     # remove + extend can re-enter a doer (its script starts again): only a limit guarantees termination then
-    if g.always or both or rng.random() < 0.5:
+    if g.always or both or profile == "closeops" or rng.random() < 0.5:
         limit = rng.choice(limits)
     else:
         limit = None
@@ -715,7 +789,8 @@ class SchedCheck(core.Check):
                     "modelled: a Python generator as its remaining script; exceptions as values (err/kbint); the deque+marker as a zipper"]
     assumptions = ["ops are issued by a running doer on its own scheduler only; a pool doer does not remove itself; a removed pool DoDoer whose children issue ops is not extended again (the generators respect this)",
                    "py3.12: generator.close() returns None; Doer/DoDoer return self.done on close, so 3.13 semantics assign the same value",
-                   "KeyboardInterrupt raised inside enter is not modelled"]
+                   "SystemExit raised by a doer is modelled as the same kind as KeyboardInterrupt (BaseException that is not Exception): the trace is identical, only do() re-raises it; the adapter reports which and the oracle checks it",
+                   "IMPLEMENTATION-SIDE ONLY (driver answers (unmodelled); oracle on the real run; about a quarter of the C01/C02 cases): scheduler ops issued from a doer's cease/exit action (re-entrant forced shutdown) and KeyboardInterrupt/SystemExit raised inside enter — the Lean theorems do not cover these"]
 
     def corpus(self):
         return list(CORPUS)
@@ -918,3 +993,132 @@ CORPUS_SELFRM = [
     ("run", 1.0, 0.0, 6.0, [_lf(5, [([("remove", [5])], ("yield", 0.0)), _y(), _y(), _y(), _y()], "genrecur")],
      [_lf(1, [([("extend", [0])], ("yield", 0.0)), _y(), ([("extend", [0])], ("yield", 0.0)), _y(), _y(), _y()])]),
 ]
+
+
+# exits on BaseException paths and re-entrant forced shutdown (seeded C01-m2 / C01-m3 classes)
+CORPUS_BEXC = [
+    # a doer calls sys.exit() in mid cycle with live doers on both sides, directly under the Doist and nested
+    ("run", 1.0, 0.0, 9.0, [], [_lf(1, [_y()] * 5, "plain"), _lf(2, [_y(), _y(), ([], "sysexit")], "genrecur"), _lf(3, [_y()] * 5, "doize")]),
+    ("run", 1.0, 0.0, 9.0, [], [_lf(1, [_y()] * 5), ("group", 9, 0.0, False, [_lf(2, [_y()] * 5, "bound"), _lf(3, [_y(), ([], "sysexit")], "plain")], []), _lf(4, [_y()] * 5)]),
+    # KeyboardInterrupt / SystemExit raised by the third enter of do(): the doers already entered must be closed
+    ("run", 1.0, 0.0, 9.0, [], [_lf(1, [_y()] * 3), _lf(2, [_y()] * 3, "plain"), _lf(3, [_y()], "doify", "kbint"), _lf(4, [_y()])]),
+    ("run", 1.0, 0.0, 9.0, [], [_lf(1, [_y()] * 3), ("group", 9, 0.0, False, [_lf(2, [_y()] * 3), _lf(3, [_y()], "genrecur", "sysexit")], [])]),
+    # re-entrant shutdown: ops issued from cease / exit while the scheduler is closing everything (limit stop)
+    ("run", 1.0, 0.0, 3.0, [_lf(7, [_y()] * 3)], [_lf(1, [_y()] * 9), _lf(2, [_y()] * 9, "plain"), _lf(3, [_y()] * 9 + [([("extend", [0])], "onexit")])]),
+    ("run", 1.0, 0.0, 3.0, [], [_lf(1, [_y()] * 9), _lf(2, [_y()] * 9 + [([("remove", [2])], "oncease")], "genrecur"), _lf(3, [_y()] * 9, "bound")]),
+    ("run", 1.0, 0.0, 3.0, [], [_lf(1, [_y()] * 9), _lf(2, [_y()] * 9, "doize"), _lf(3, [_y()] * 9 + [([("remove", [1])], "oncease")], "plain")]),
+    ("run", 1.0, 0.0, 3.0, [], [_lf(1, [_y()] * 9), ("group", 9, 0.0, False, [_lf(2, [_y()] * 9), _lf(3, [_y()] * 9 + [([("remove", [2, 3])], "oncease")]), _lf(4, [_y()] * 9 + [([("extend", [0])], "onexit")], "plain")], [_lf(7, [_y()])])]),
+]
+
+
+# --------------------------------------------------------------------------- several runs on ONE Doist object (C05)
+# case ("runs", tock, start0, limit0, [call..]); call = (mode "do"|"ado", start|None, limit|None, pool, specs).
+# The Doist is created with tyme=start0, limit=limit0; every call passes doers=specs and tyme=/limit= when not None.
+# A call whose program has the same ids as an earlier one REUSES those doer objects (their done flags must be reset
+# at enter).  Observation = one run_program-style dict per call.
+
+def request_runs(case, fuel=FUEL):
+    _, tock, start0, limit0, calls = case
+    return ("runs", ("tock", sx.F(tock)), ("start", sx.F(start0)),
+            ("limit", None if limit0 is None else sx.F(abs(float(limit0)))), ("fuel", fuel),
+            ("calls", [("call", ("start", None if st is None else sx.F(st)), ("limit", None if lm is None else sx.F(abs(float(lm)))),
+                        ("pool", [sx_spec(s) for s in pool]), ("specs", [sx_spec(s) for s in specs]))
+                       for mode, st, lm, pool, specs in calls]))
+
+
+
+
+def run_sequence(case):
+    core.assert_tree()
+    _, tock, start0, limit0, calls = case
+    rec = Rec()
+    doist = make_doist(rec, tock, start0, limit0)
+    rec.sched[0] = doist
+    out = []
+    gc_was = gc.isenabled()
+    gc.disable()
+    try:
+        for mode, st, lm, pool, specs in calls:
+            rec.cycles = 0
+            first = len(rec.log)
+            doers = [rec.obj[s[1]] if s[1] in rec.obj else build(rec, s, 0) for s in specs]
+            rec.pools[0] = [rec.obj[s[1]] if s[1] in rec.obj else build(rec, s, 0) for s in pool]
+            kw = {}
+            if st is not None:
+                kw["tyme"] = st
+            if lm is not None:
+                kw["limit"] = lm
+            raised, n = "-", None
+            try:
+                if mode == "do":
+                    doist.do(doers=doers, **kw)
+                else:
+                    import asyncio
+                    loop = asyncio.SelectorEventLoop()
+                    try:
+                        loop.run_until_complete(doist.ado(doers=doers, **kw))
+                    finally:
+                        loop.close()
+                n = len(rec.log)
+            except SchedErr:
+                n = len(rec.log)
+                raised = "err"
+            except KeyboardInterrupt:
+                n = len(rec.log)
+                raised = "kbint"
+            except SystemExit:
+                n = len(rec.log)
+                raised = "sysexit"
+            except Exception as ex:
+                n = len(rec.log)
+                raised = "other:" + type(ex).__name__
+            except Runaway:
+                rec.dead = True
+                n = len(rec.log)
+                raised = "other:Runaway"
+            gc.collect(1)
+            ids = sorted(x[1] for x, _, _ in all_specs(("run", tock, 0.0, None, pool, specs)))
+            leaf0 = Leaf(rec, ("leaf", -1, "doify", "ok", []), 0)
+            out.append(dict(trace=rec.log[first:n], late=rec.log[n:], flags=[(i, bool(rec.obj[i].done)) for i in ids],
+                            done=bool(doist.done), done_raw=doist.done, tyme=doist.tyme, raised=raised, doers=leaf0.ids_of(doist.doers)))
+            if rec.dead:
+                break
+    finally:
+        if gc_was:
+            gc.enable()
+    return out
+
+
+class ObsRuns(tuple):
+    def __new__(cls, ds):
+        o = super().__new__(cls, ("runs",) + tuple(obs_view(d) for d in ds))
+        o.ds = ds
+        return o
+
+
+def gen_runs(rng):
+    """2-4 calls on one Doist: op-free programs (so that reused DoDoers keep their .doers), fresh or reused doers,
+    do/ado mixed, tyme and limit given or kept; every call terminates (an `always` group only under a limit in force)"""
+    t = rng.choice(TOCKS)
+    start0 = rng.choice(STARTS)
+    limit0 = rng.choice([None, None, 3 * t, 0.0])
+    calls, lim, progs = [], limit0, []
+    for k in range(rng.choice([2, 2, 3, 4])):
+        if progs and rng.random() < 0.4:
+            pool, specs = rng.choice(progs)                      # same doer objects again
+        else:
+            g = _Gen(rng, rng.choice(["time", "plain", "faults0"]) if False else rng.choice(["time", "plain"]))
+            g.tock = t
+            g.next_id = 100 * (k + 1) + 1
+            if rng.random() < 0.4:
+                g.p_fault = 0.1                                   # raises / kbint, still no ops
+            specs, pool = g.members(0, rng.choice([1, 2, 3, 4]), 0)
+            progs.append((pool, specs))
+        lm = rng.choice([None, None, 0.0, t / 2, 2 * t, 2.5 * t, 5 * t, -3 * t])
+        eff = lm if lm is not None else lim
+        if eff is None and has_always(list(specs) + list(pool)):
+            lm = eff = 3 * t
+        lim = eff
+        st = rng.choice([None, None, None, 0.0, 2.5, 10.0])
+        calls.append((rng.choice(["do", "ado"]), st, lm, pool, specs))
+    return ("runs", t, start0, limit0, calls)
